@@ -15,11 +15,16 @@ CLAIMED = {
             "seeded deterministic simulation: post-run history check of execution counts"),
     "C04": ("travsim", "3.6", "interval-overlap sweep over execution intervals in event-sequence order per (test, reuse scope), timer ties decided by the plan",
             "seeded deterministic simulation: interval-overlap check in virtual time"),
+    "C05": ("travsim", "3.7", "history check of every removal/sync request at the state-control seam against the executions running or pending at that instant, and against the producers' removal marking",
+            "seeded deterministic simulation: history check of removal requests vs dependant intervals"),
     "C08": ("travsim", "3.10", "invariant at every simulated start: worker identity, access parameters, listed sources == workers with a passing producer result",
             "seeded deterministic simulation: start-event invariant against the run's own history"),
 }
 
-PENDING = {'C05': 'not claimed yet: the check for this property is still being built (see DESIGN.md build order)', 'C06': 'not claimed yet: the check for this property is still being built (see DESIGN.md build order)', 'C07': 'not claimed yet: the check for this property is still being built (see DESIGN.md build order)', 'C09': 'not claimed yet: the check for this property is still being built (see DESIGN.md build order)', 'C10': 'not claimed yet: the check for this property is still being built (see DESIGN.md build order)', 'C12': 'not claimed yet: the check for this property is still being built (see DESIGN.md build order)', 'C13': 'not claimed yet: the check for this property is still being built (see DESIGN.md build order)', 'C14': 'not claimed yet: the check for this property is still being built (see DESIGN.md build order)', 'C15': 'not claimed yet: the check for this property is still being built (see DESIGN.md build order)', 'C16': 'not claimed yet: the check for this property is still being built (see DESIGN.md build order)', 'C17': 'not claimed yet: the check for this property is still being built (see DESIGN.md build order)', 'C20': 'not claimed yet: the check for this property is still being built (see DESIGN.md build order)'}
+PENDING = {'C06': 'not claimed yet: the check for this property is still being built (see DESIGN.md build order)', 'C07': 'not claimed yet: the check for this property is still being built (see DESIGN.md build order)', 'C09': 'not claimed yet: the check for this property is still being built (see DESIGN.md build order)', 'C12': 'not claimed yet: the check for this property is still being built (see DESIGN.md build order)', 'C13': 'not claimed yet: the check for this property is still being built (see DESIGN.md build order)', 'C14': 'not claimed yet: the check for this property is still being built (see DESIGN.md build order)', 'C15': 'not claimed yet: the check for this property is still being built (see DESIGN.md build order)', 'C16': 'not claimed yet: the check for this property is still being built (see DESIGN.md build order)', 'C17': 'not claimed yet: the check for this property is still being built (see DESIGN.md build order)', 'C20': 'not claimed yet: the check for this property is still being built (see DESIGN.md build order)'}
+
+CLAIMED["C10"] = ("travsim", "3.13", "history check against an executable model of the documented retry/stop/replay/verdict rules, with distinct-identifier and own-result (serial-tagged results) checks, valid and invalid settings, replayed jobs across crash-restart epochs",
+                  "seeded deterministic simulation with fault injection: refinement against an executable retry/replay reference model")
 
 NOT_APPLICABLE = {
     "C11": "pure function of the argument list and the configuration files: no schedule, clock, fault or multi-party behaviour for a simulator to control (DESIGN.md 6)",
